@@ -62,7 +62,7 @@ def copy_image(src, root, tag):
 class C10Engine(Engine):
     pid = "C10"
     level = "fault_enumeration"
-    RUNS = (260, 6000)
+    RUNS = (500, 15000)
     assumptions = COMMON_ASSUMPTIONS + [
         "a crash image is the directory content between two Python-level database calls; SQLite's own commit is atomic"]
     rule = ("seeded histories (claim/release/close/sweep heavy, with and without usage db) run with image capture: the "
@@ -103,9 +103,16 @@ class C10Engine(Engine):
         try:
             w.capture = True
             chk.feed(w.start())
-            ev_images_before = 0
+            target = self.pick_target(spec)
+            clients = None
             for i, st in enumerate(spec["steps"]):
                 n_before = len(w.images)
+                if i == target:
+                    # what every connected client knows just before the interrupted command
+                    clients = self.client_view(w, chk)
+                    self._all_last = {cid: dict(c.last) for cid, c in w.conns.items()}
+                    w._image_hashes = {}
+                    w.take_image("pre-step")
                 for ev in S.exec_step(w, st, i):
                     chk.feed(ev)
                 # images of this step, with what the clients looked like before it
@@ -154,9 +161,171 @@ class C10Engine(Engine):
                     break
             facts["extra"]["images_explored"] = explored
             facts["nontrivial"] = nontrivial
+            # (c) clients resume
+            if not viol and target is not None and clients is not None and not chk.stopped and only_image is None:
+                timgs = [r for r in w.images if r.get("step") == target]
+                vs = self.clients_resume(spec, target, clients, timgs, facts)
+                viol += vs
         finally:
             w.dispose()
         return viol, facts
+
+    RESEND = ("claim", "release", "open", "close")
+
+    def pick_target(self, spec):
+        if "target" in spec:
+            return spec["target"]
+        cands = [i for i, st in enumerate(spec["steps"])
+                 if st["op"] == "send" and isinstance(st["m"], dict) and st["m"].get("type") in self.RESEND]
+        if not cands:
+            return None
+        return make_rng(spec["seed"], "c10-target").choice(cands)
+
+    def client_view(self, w, chk):
+        out = {}
+        for cid, c in sorted(w.conns.items()):
+            if not c.alive:
+                continue
+            cm = chk.conns.get(cid)
+            out[cid] = {"app": cm.app if cm else None, "side": cm.side if cm else None,
+                        "reopen": (cm.named if (cm and cm.held and not cm.stale) else None),
+                        "np": cm.np if cm else None, "named": cm.named if cm else None,
+                        "last": dict(c.last), "uncertain": bool(cm and cm.uncertain)}
+        return out
+
+    def continuation(self, spec, target, clients):
+        """reconnects of every client, the re-sent command, the rest of the history"""
+        OFF = 500000
+        cmap = {cid: cid + OFF for cid in clients}
+
+        def remap(x):
+            if isinstance(x, dict):
+                if "ref" in x and set(x) <= {"ref", "c"}:
+                    if x["c"] not in cmap:
+                        # a connection that was gone before the crash: what it had been
+                        # told is plain client knowledge
+                        lit = getattr(self, "_all_last", {}).get(x["c"], {}).get(x["ref"])
+                        return lit if lit is not None else x
+                    return {"ref": x["ref"], "c": cmap[x["c"]]}
+                return {k: remap(v) for k, v in x.items()}
+            if isinstance(x, list):
+                return [remap(v) for v in x]
+            return x
+        cont = []
+        for cid, info in sorted(clients.items()):
+            cont.append({"op": "reconnect", "c": cmap[cid], "app": info["app"], "side": info["side"],
+                         "last": info["last"], "reopen": info["reopen"]})
+        st = spec["steps"][target]
+        if st["c"] not in clients or clients[st["c"]]["app"] is None:
+            return None, None
+        info = clients[st["c"]]
+        m = remap(st["m"])
+        m = dict(m)
+        t = m.get("type")
+        if t == "release" and "nameplate" not in m:
+            if info["np"] is None:
+                return None, None
+            m["nameplate"] = info["np"]
+        if t == "close" and "mailbox" not in m:
+            if info["named"] is None:
+                return None, None
+            m["mailbox"] = info["named"]
+        if t == "open" and info["reopen"] is not None:
+            return None, None     # it already held a mailbox: the command was an error case
+        resend_at = len(cont)
+        cont.append({"op": "send", "c": cmap[st["c"]], "m": m})
+        for st2 in spec["steps"][target + 1:]:
+            s2 = remap(st2)
+            if "c" in s2 and s2["c"] in cmap:
+                s2["c"] = cmap[s2["c"]]
+            cont.append(s2)
+        return cont, resend_at
+
+    def run_cont(self, w, cont, base):
+        frames = {}
+        errs = []
+        for k, st in enumerate(cont):
+            for ev in S.exec_step(w, st, base + k):
+                for (c, f) in ev.frames:
+                    frames.setdefault(c, []).append((k, {kk: vv for kk, vv in f.items() if kk != "server_tx"}))
+                for e in ev.errors:
+                    if e.get("kind") in ("internal_error", "start_failed"):
+                        errs.append((k, e))
+        return frames, errs
+
+    def clients_resume(self, spec, target, clients, images, facts):
+        from .paired import Renamer
+        viol = []
+        if any(c["uncertain"] for c in clients.values()):
+            return viol
+        cont, resend_at = self.continuation(spec, target, clients)
+        if cont is None:
+            return viol
+        seed, cfg, modes = spec["seed"], spec["cfg"], spec["rng_modes"]
+        BASE = 100000
+        # reference: no crash, but the same drop / reconnect / re-open / re-send
+        wu = World(seed, cfg, modes, name="c10u")
+        try:
+            wu.start()
+            for i, st in enumerate(spec["steps"][:target + 1]):
+                S.exec_step(wu, st, i)
+            S.exec_step(wu, {"op": "restart", "how": "clean"}, target)
+            fu, eu = self.run_cont(wu, cont, BASE)
+            final_u = wu.history[-1].post
+            facts["events"] += len(wu.history)
+            if eu:
+                return viol       # the reference itself failed: judged by the other checks
+        finally:
+            wu.dispose()
+        facts["extra"]["resume_targets"] = facts["extra"].get("resume_targets", 0) + 1
+        kind = spec["steps"][target]["m"].get("type")
+        facts["extra"]["resume_" + kind] = facts["extra"].get("resume_" + kind, 0) + 1
+        for rec in images:
+            root = os.path.dirname(rec["path"])
+            d = copy_image(rec["path"], root, "rs")
+            wc = World(seed, cfg, modes, dirname=d, t0=rec["t"], name="c10c", rng_salt="-resumed")
+            wc.wall_jump = rec.get("wall_jump", 0.0)
+            where = "crash in step %d (%s) at %s (point %s)" % (target, kind, rec["label"], rec["point"])
+            try:
+                ev = wc.start(kind="restart")
+                if any(e.get("kind") == "start_failed" for e in ev.errors):
+                    viol.append(self.v("image-opens", "%s: the server does not start on the image" % where, target))
+                    break
+                fc, ec = self.run_cont(wc, cont, BASE)
+                facts["events"] += len(wc.history)
+                facts["extra"]["resume_images"] = facts["extra"].get("resume_images", 0) + 1
+                if rec.get("between"):
+                    facts["extra"]["resume_images_between_commits"] = facts["extra"].get("resume_images_between_commits", 0) + 1
+                if ec:
+                    k, e = ec[0]
+                    viol.append(self.v("resumed-clients-served-without-internal-error",
+                                       "%s: after restart, continuation step %d raised %s: %s at %s"
+                                       % (where, k, e.get("type"), e.get("text"), e.get("where")), target))
+                    break
+                ru, rc = Renamer(), Renamer()
+                bad = None
+                for c in sorted(set(fu) | set(fc)):
+                    a = [(k, ru.frame(f)) for (k, f) in fu.get(c, []) if k >= resend_at]
+                    b = [(k, rc.frame(f)) for (k, f) in fc.get(c, []) if k >= resend_at]
+                    if a != b:
+                        i = 0
+                        while i < min(len(a), len(b)) and a[i] == b[i]:
+                            i += 1
+                        bad = "conn %s: frame #%d from the re-send on is %r without the crash, %r after it" % (
+                            c, i, a[i] if i < len(a) else None, b[i] if i < len(b) else None)
+                        break
+                if bad:
+                    viol.append(self.v("resume-same-answers", "%s: %s" % (where, bad), target))
+                    break
+                ku, kc = ru.chan(final_u), rc.chan(wc.history[-1].post)
+                if ku != kc:
+                    viol.append(self.v("resume-same-stored-state",
+                                       "%s: stored state at the end differs: without crash %s / resumed %s"
+                                       % (where, ku, kc), target))
+                    break
+            finally:
+                wc.dispose()
+        return viol
 
     def v(self, clause, text, step=None, sig=None):
         return {"prop": "C10", "clause": clause, "event": None, "step": step, "text": text, "sig": sig}
